@@ -174,6 +174,72 @@ def delaunay_reference(src, verts):
             "hull_tie": hull_tie, "kappa": kappa, "has_candidate": has_cand}
 
 
+def nearest_vertex_chunked(src, verts, chunk=509):
+    """Brute-force nearest vertex of every point, vectorised over blocks of `chunk` points (a prime, so the blocks do
+    not line up with power-of-two blocking in the code under test).  Returns (nearest, relative gap of the squared
+    distances to the two nearest vertices)."""
+    src = np.asarray(src, dtype=float)
+    verts = np.asarray(verts, dtype=float)
+    n = len(src)
+    nearest = np.zeros(n, dtype=int)
+    gap = np.ones(n)
+    for a in range(0, n, chunk):
+        blk = src[a:a + chunk]
+        d2 = ((blk[:, None, :] - verts[None, :, :]) ** 2).sum(axis=-1)
+        part = np.argpartition(d2, 1, axis=1)[:, :2]
+        da = d2[np.arange(len(blk)), part[:, 0]]
+        db = d2[np.arange(len(blk)), part[:, 1]]
+        first = np.where(da <= db, part[:, 0], part[:, 1])
+        lo, hi = np.minimum(da, db), np.maximum(da, db)
+        nearest[a:a + chunk] = first
+        gap[a:a + chunk] = (hi - lo) / np.maximum(hi, 1e-300)
+    return nearest, gap
+
+
+def delaunay_reference_large(src, verts):
+    """Reference for large instances: hull test of every point against the hull edges only (barycentric coordinate
+    of the opposite vertex in the simplex owning each hull edge, as in delaunay_reference), chunked brute-force
+    nearest vertex for the outside points, and the full brute-force barycentric search of delaunay_reference for the
+    (few) inside points.  Returns dict(inside, hull_tie, nearest, nearest_gap, inside_index, inside_ref, adjacency)."""
+    src = np.asarray(src, dtype=float)
+    verts = np.asarray(verts, dtype=float)
+    n = len(src)
+    tri = scipy.spatial.Delaunay(verts)
+    simp = np.asarray(tri.simplices, dtype=int)
+    nbrs = np.asarray(tri.neighbors)
+    cmax = max(float(np.abs(verts).max()), float(np.abs(src).max()))
+    margin = np.full(n, np.inf)
+    hull_tie = np.zeros(n, dtype=bool)
+    for t in np.flatnonzero((nbrs == -1).any(axis=1)):
+        a = verts[simp[t]]
+        e = np.stack([a[1] - a[0], a[2] - a[0]], axis=-1)
+        det = e[0, 0] * e[1, 1] - e[0, 1] * e[1, 0]
+        inv = np.array([[e[1, 1], -e[0, 1]], [-e[1, 0], e[0, 0]]]) / det
+        l12 = (src - a[0]) @ inv.T
+        lam = np.concatenate([(1.0 - l12.sum(axis=1))[:, None], l12], axis=1)
+        edges = np.stack([a[1] - a[0], a[2] - a[1], a[0] - a[2]])
+        longest2 = (edges ** 2).sum(axis=1).max()
+        quality = abs(det) / longest2
+        height = abs(det) / np.sqrt(longest2)
+        u = 256.0 * EPS * (1.0 + 1.0 / max(quality, 1e-300) + cmax / max(height, 1e-300))
+        for j in range(3):
+            if nbrs[t, j] == -1:
+                margin = np.minimum(margin, lam[:, j])
+                hull_tie |= np.abs(lam[:, j]) <= u
+    inside = margin >= 0.0
+    nearest, gap = nearest_vertex_chunked(src, verts)
+    idx_in = np.flatnonzero(inside | hull_tie)
+    inner = delaunay_reference(src[idx_in], verts) if len(idx_in) else None
+    adj = [set() for _ in range(len(verts))]
+    for t in simp:
+        for i in range(3):
+            for j in range(3):
+                if i != j:
+                    adj[int(t[i])].add(int(t[j]))
+    return {"inside": inside, "hull_tie": hull_tie, "nearest": nearest, "nearest_gap": gap,
+            "inside_index": idx_in, "inside_ref": inner, "adjacency": adj}
+
+
 # ---------------------------------------------------------------------------------------------
 # image-pixel bookkeeping
 # ---------------------------------------------------------------------------------------------
